@@ -299,6 +299,10 @@ namespace sim
     std::uint32_t props = props_of_oracle (oracle) | g.ctx_props;
     if (0 == std::strncmp (oracle, "model.", 6))
       props |= g.universe_props;
+    // the allocator's view of lifetimes differing for a trivially copyable element is also a
+    // C13 matter (a shortcut for trivial types became observable)
+    if (0 == std::strcmp (oracle, "life.alloc_balance"))
+      props |= g.universe_props & pbit (P13);
     if (g.fired > 0)
       props |= pbit (P06); // raised while unwinding from an injected fault
     if (g.violated)
